@@ -183,7 +183,9 @@ def render_frag(rng, g, nodes, desc, atom_text=None, anno_p=0.0):
                 s += rs + d
         else:
             s += rs
-        if anno_p and not atom_text and g.nodes[u].get('h', 0) >= 1 and g.nodes[u]['charge'] == 0 and rng.random() < anno_p / 2:
+        if anno_p and not atom_text and g.nodes[u].get('h', 0) >= 1 and g.nodes[u]['charge'] == 0 \
+                and not g.nodes[u].get('pyrrole') and rng.random() < anno_p / 2:
+            # (not for '[nH]': a bracket atom states its hydrogens itself, a written-out one would be an extra one)
             # one of the atom's hydrogens written out with its own weight
             s += '([H;%s])' % rng.choice(['0', '0.5', 'w=0', '2'])
         for i, v in enumerate(kids):
